@@ -130,14 +130,6 @@ fn opt_return_signature(p: &mut Parser<'_>) -> bool {
 /// Parse an identifer signifying a name. Attempt recovery
 /// on failure.
 fn name_r(p: &mut Parser<'_>, recovery: TokenSet) {
-    // FIXME: testing. dont know if this belongs
-    if p.at(HARDWAREIDENT) {
-        let m = p.start();
-        p.bump(HARDWAREIDENT);
-        m.complete(p, HARDWARE_QUBIT);
-        return;
-    }
-
     if p.at(IDENT) {
         let m = p.start();
         p.bump(IDENT);
